@@ -12,12 +12,24 @@
    "small_direct" writes small outputs directly. *)
 EXTENDS Integers, Sequences, FiniteSets, TLC
 
-CONSTANTS Design, Chunks        \* number of write operations the content needs
+CONSTANTS
+  \* @type: Str;
+  Design,
+  \* @type: Int;
+  Chunks        \* number of write operations the content needs
 
 Names == {"final", "tmp", "tmpglob"}
 MatchesGlob(n) == n \in {"final", "tmpglob"}
 
-VARIABLES pc, dir, crashed, cur
+VARIABLES
+  \* @type: Str;
+  pc,
+  \* @type: Str -> Int;
+  dir,
+  \* @type: Bool;
+  crashed,
+  \* @type: Str;
+  cur
 vars == <<pc, dir, crashed, cur>>
 \* dir: name -> number of chunks present (or -1 if absent);  a file is complete iff it holds Chunks chunks
 Absent == -1
